@@ -1,7 +1,7 @@
 """C07 — thread lifecycle: spawn, join, scope and thread-locals behave as in std.
 Proof: ShuttleProofs/C07.lean (storage_init_once, storage_pop_in_insertion_order, storage_tombstone_access_is_error,
 storage_pop_loop_terminates_with_late_inits, tls_model_refines_storage, thread_fn_order, join_returns_only_when_finished,
-task_ids_unique, closure_runs_once, scope_waits_for_all as far as it holds + scope_unblock_is_unconditional_witness).
+task_ids_unique, closure_runs_once, scope_waits_for_all, scope_unblock_only_when_waiting (F10 repaired)).
 Tie: step-exact differential on nested-spawn / any-order join / scoped / TLS-with-destructor streams.
 Oracle: drop-order log, join-after-end, unique ids (tools/oracles_prim.o_threads)."""
 from kernelprop import *
